@@ -14,7 +14,7 @@ import ast
 from typing import Dict, List, Optional, Set, Tuple
 
 from ..core import AnalysisError, Func, Repo, dotted, norm, parents
-from ..cfg import CFG
+from ..cfg import CFG, normalise_facts
 from ..report import Check
 from ..util import call_name, calls_in, const_str, enclosing_trys, handler_names, is_catch_all
 
@@ -274,6 +274,33 @@ def run(repo: Repo, chk: Check, thorough: bool = False) -> None:
                'list values keep their parsed type: argparse receives non-string items', f.loc)
     ok = any(isinstance(n, ast.Assign) and isinstance(n.value, ast.Call) and call_name(n.value) == 'str' and 'result' in norm(n.targets[0]) for n in tp.walk())
     chk.ob('R20.4', f'{tp.qn} :: scalars are converted to str', ok, 'result[key] = str(value)' if ok else 'TOML scalars are not stringified like INI values', tp.loc)
+    # a TOML value is left out only when it IS None: every other value of the table (0, false, '', 0.0) reaches argparse as its string, exactly as
+    # `--opt=0` does.  Path rule on the per-key loop: an iteration that stores nothing passes the true edge of an identity test against None
+    tl = [n for n in tp.walk() if isinstance(n, ast.For) and isinstance(n.target, ast.Tuple) and len(n.target.elts) == 2 and
+          isinstance(n.iter, ast.Call) and call_name(n.iter) == 'items']
+    if not tl:
+        raise AnalysisError('R20.4: the per-key loop of TomlConfigParser.parse was not found')
+    cft = CFG(tp)
+    for lp in tl:
+        vname = norm(lp.target.elts[1])  # type: ignore[attr-defined]
+        stores_t = [n for n in ast.walk(lp) if isinstance(n, ast.Assign) and any(isinstance(t, ast.Subscript) for t in n.targets)]
+        none_edges = []
+        for nid, edges in cft.succ.items():
+            for (t, l, k) in edges:
+                if l is None:
+                    continue
+                for fact, pol in normalise_facts([l]):
+                    if isinstance(fact, ast.Compare) and len(fact.ops) == 1 and norm(fact.left) == vname and isinstance(fact.comparators[0], ast.Constant) \
+                            and fact.comparators[0].value is None and ((isinstance(fact.ops[0], ast.Is) and pol) or (isinstance(fact.ops[0], ast.IsNot) and not pol)):
+                        none_edges.append((nid, id(t), k))
+        first = lp.body[0]
+        r = cft.reachable(first, avoid_nodes=stores_t, avoid_edges=none_edges, no_exc=True)
+        silent = id(lp) in r
+        chk.ob('R20.4', f'{tp.qn} :: a value of the table is left out only when it is None', not silent,
+               f'every iteration stores `{vname}` or passes `{vname} is None`' if not silent else
+               f'an iteration can end without storing `{vname}` although it is not None (a membership or equality test such as `{vname} in (None, False)` also holds for 0 and 0.0): '
+               '`sidebar-toc-depth = 0` in pyproject.toml is dropped and the default applies, while `--sidebar-toc-depth=0` and the same line in setup.cfg give 0',
+               repo.loc(tp.mod, lp))
     cpp = repo.func(f'{CP}.CompositeConfigParser.parse')
     # the loop runs over self.parsers, directly or through a method of the class that returns (a re-ordering of) them
     sel = {h.name for h in repo.funcs.values() if h.cls is cpp.cls and any(isinstance(x, ast.Attribute) and x.attr == 'parsers' for x in h.walk())}
@@ -281,12 +308,12 @@ def run(repo: Repo, chk: Check, thorough: bool = False) -> None:
         any(call_name(c) == 'seek' for c in calls_in(cpp)) and any(isinstance(n, ast.Raise) and 'ConfigFileParserException' in norm(n) for n in cpp.walk())
     chk.ob('R20.4', f'{cpp.qn} :: tries each format on the rewound stream', ok, 'for p in parsers: try p.parse(stream) except: stream.seek(0)' if ok else
            'the composite parser no longer rewinds the stream / reports all errors', cpp.loc)
-    chk.require('R20.4', 6)
+    chk.require('R20.4', 7)
 
     check_r20_2_unknown_values(repo, chk)
     # ------------------------------------------------------------------ R20.5
     cfgi = CFG(ip)
-    splits = [n for n in ip.walk() if isinstance(n, ast.Assign) and isinstance(n.value, ast.ListComp) and
+    splits = [n for n in ip.walk() if isinstance(n, ast.Assign) and any(isinstance(t, ast.Subscript) for t in n.targets) and
               any(isinstance(c, ast.Call) and call_name(c) in ('split', 'splitlines') for c in ast.walk(n.value))]
     if not splits:
         chk.error('R20.5: the multi-line split was not found in IniConfigParser.parse')
@@ -295,7 +322,9 @@ def run(repo: Repo, chk: Check, thorough: bool = False) -> None:
         exact_nl = call_name(sc) == 'split' and len(sc.args) == 1 and isinstance(sc.args[0], ast.Constant) and sc.args[0].value == '\n'
         chk.ob('R20.5', f'{ip.qn} :: one list item per LINE FEED, nothing else', exact_nl,
                "split('\\n')" if exact_nl else
-               f'`{norm(sc)[:40]}` also breaks at form feed, vertical tab, FS/GS/RS, U+0085, U+2028 and U+2029: an item containing one of them is cut in two in an INI file, '
+               f'`{norm(sc)[:40]}` also breaks at ' + ('ANY white space: an item with a blank in it (`template-dir = my templates`, `privacy = PRIVATE: pack.impl*`)' if
+               call_name(sc) == 'split' and not sc.args else 'form feed, vertical tab, FS/GS/RS, U+0085, U+2028 and U+2029: an item containing one of them') +
+               ' is cut apart in an INI file, '
                'while the same value repeated on the command line or written in TOML stays whole', repo.loc(ip.mod, s_))
     # list literals: `[...]` is only evaluated when the value both starts with `[` and ends with `]`
     lev = [c for c in calls_in(ip) if call_name(c) == 'literal_eval']
@@ -400,6 +429,34 @@ def run(repo: Repo, chk: Check, thorough: bool = False) -> None:
            'the order of the parsers depends on the name of the file' if by_name else
            'every file is offered to the TOML parser first: `project-version = 1.10` in pydoctor.ini (or a `[pydoctor]` section of setup.cfg whose lines all happen to be '
            'valid TOML) is read as the float 1.1, the command line and `[tool:pydoctor]` give \'1.10\'', cpar.loc)
+    # ... and that choice is made per FILE: the parser list belongs to the module-level singleton, so nothing but the constructor may write or
+    # re-order it - an in-place sort for setup.cfg would leave INI first for the pyproject.toml read next (and for every later run in the process)
+    MUT = {'sort', 'reverse', 'insert', 'append', 'remove', 'pop', 'extend', 'clear'}
+    n_w = 0
+    for h in repo.funcs.values():
+        if h.cls is not cpar.cls:
+            continue
+        for x in h.walk():
+            w = None
+            if isinstance(x, ast.Call) and isinstance(x.func, ast.Attribute) and x.func.attr in MUT and norm(x.func.value) == 'self.parsers':
+                w = f'self.parsers.{x.func.attr}(...)'
+            elif isinstance(x, (ast.Assign, ast.AugAssign, ast.AnnAssign, ast.Delete)):
+                tg = x.targets if isinstance(x, (ast.Assign, ast.Delete)) else [x.target]
+                for t in tg:
+                    base = t.value if isinstance(t, ast.Subscript) else t
+                    if norm(base) == 'self.parsers':
+                        w = f'`{norm(x)[:50]}`'
+            if w is None:
+                continue
+            n_w += 1
+            okw = h.name == '__init__'
+            chk.ob('R20.6', f'{h.qn} :: {w} - the order of the parsers is fixed at construction', okw,
+                   'written by the constructor only' if okw else
+                   f'{w} changes the shared parser list while files are being read: once a *.cfg / *.ini file has been seen the INI parser stays first, and the '
+                   "pyproject.toml next to it is read with INI rules (`'C:\\new\\docs'` gets Python escapes, a value followed by `# comment` keeps quotes and comment)",
+                   repo.loc(h.mod, x))
+    if n_w < 1:
+        raise AnalysisError('R20.6: no write of self.parsers found in CompositeConfigParser (the constructor assigns it)')
     secs = om.assigns.get('CONFIG_SECTIONS')
     ok = isinstance(secs, ast.List) and [const_str(e) for e in secs.elts] == ['tool.pydoctor', 'tool:pydoctor', 'pydoctor'] and \
         isinstance(pcp, ast.Call) and all('CONFIG_SECTIONS' in norm(e) for e in pcp.args[0].elts)  # type: ignore[attr-defined]
